@@ -18,8 +18,9 @@ ovars == <<flags, twopl, stab, stage>>
 
 ExtrasFor(c) ==
     IF ExtraMode = "none" THEN {<<>>}
-    ELSE CASE c \in {"gen", "gre"} -> {<<>>, <<1>>, <<2>>}
-           [] c \in {"mincost", "minsqcost", "mincostlsb"} -> {<<>>, <<1>>, <<2, 1>>}
+    ELSE CASE c = "gen" -> {<<>>, <<1>>, <<2>>}
+           [] c = "gre" -> {<<>>, <<1>>, <<2>>, <<12>>}            \* a greedy cut-off may exceed the maximum rank
+           [] c \in {"mincost", "minsqcost", "mincostlsb"} -> {<<>>, <<1>>, <<2, 1>>, <<10, 1>>, <<1, 11>>}
            [] OTHER -> {<<>>}
 
 Init == flags = <<>> /\ twopl = FALSE /\ stab = FALSE /\ stage = "flags"
